@@ -24,6 +24,8 @@ fn merge_ops(mut flat: Vec<WarpOp>) -> Result<Vec<WarpOp>, String> {
 }
 
 fn main() {
+    // expected panics (footprint violations, scripted executor panics) are caught; keep stderr quiet
+    std::panic::set_hook(Box::new(|_| {}));
     for line in read_cases() {
         let m = kv(&line);
         let g = build_graph(m.get("g").map(String::as_str).unwrap_or("-"));
